@@ -51,6 +51,15 @@ pub fn roundtrip_dblayer(adf: &Adf) -> Adf {
     Adf::from((vc, bdd, ac.into_iter().map(|t| Term(t.parse().unwrap())).collect()))
 }
 
+/// answers whose ORDER is compared between the original and the restored object (same node table, so raw handles too)
+fn ordered_answers(adf: &mut Adf) -> Vec<(&'static str, Vec<Vec<Term>>)> {
+    let mut v = semantics(adf);
+    v.push(("stable_nogood(MinModMinPathsMaxVarImp)", adf.stable_nogood(Heuristic::MinModMinPathsMaxVarImp).collect()));
+    v.push(("stable_nogood(MinModMaxVarImpMinPaths)", adf.stable_nogood(Heuristic::MinModMaxVarImpMinPaths).collect()));
+    v.push(("stable_count_optimisation_heu_b", adf.stable_count_optimisation_heu_b().collect()));
+    v
+}
+
 fn semantics(adf: &mut Adf) -> Vec<(&'static str, Vec<Vec<Term>>)> {
     let mut v = vec![];
     v.push(("grounded", vec![adf.grounded()]));
@@ -132,6 +141,23 @@ pub fn state_case_g(text: &str, tts: &[TT], bridged: bool, seq: &[usize], grown:
         check_state(&back.bdd, n, &Flags { canonical: true, functions: false, memo: true, queries: true }, &mut o2);
         for (k, m) in o2 {
             out.push((format!("{}:{}", rt, k), format!("{} (export after {:?})", m, names)));
+        }
+        // the restored object answers like the original, in the same order (both get the same calls from here on)
+        if seq.is_empty() && !grown {
+            adf_bdd::verif::set_budget(Some(STEP_BUDGET));
+            let both = guard(|| {
+                let mut o2 = f(&orig);
+                let mut fresh = if bridged { BdAdf::from_parser(&parser).hybrid_step_opt(false) } else { Adf::from_parser(&parser) };
+                (ordered_answers(&mut fresh), ordered_answers(&mut o2))
+            });
+            adf_bdd::verif::set_budget(None);
+            if let Ok((a, b)) = both {
+                for ((name, x), (_, y)) in a.iter().zip(b.iter()) {
+                    if x != y {
+                        out.push((format!("{}:order:{}", rt, name), format!("the restored object answers {:?}, the original {:?}", y, x)));
+                    }
+                }
+            }
         }
         // every semantics answer of the re-imported object
         adf_bdd::verif::set_budget(Some(STEP_BUDGET));
@@ -247,6 +273,36 @@ fn cli_case(cli: &str, dir: &str, idx: u64, text: &str, tts: &[TT]) -> Vec<(Stri
         } else if parse_stdout(&o.stdout).ok().map(|l| l.len()) != Some(1) {
             out.push(("cli:export-existing-answer".into(), format!("export onto an {}: the requested grounded line is not printed: {:?}", what, o.stdout)));
         }
+    }
+    // a fresh export into a directory that holds other files whose names are derived from the target's: afterwards the
+    // directory holds exactly what it held before plus the target, every old file byte-identical
+    {
+        let sub2 = format!("{}/sib_{}", dir, idx);
+        let _ = std::fs::remove_dir_all(&sub2);
+        std::fs::create_dir_all(&sub2).unwrap();
+        let names = ["state.tmp", "state.json.tmp", "state.json~", ".state.json.swp", "state.bak", "state", "state.json.part", "state.new", "tmp", "state.json.lock"];
+        for nm in names {
+            std::fs::write(format!("{}/{}", sub2, nm), format!("PRECIOUS {}\n", nm)).unwrap();
+        }
+        let tgt = format!("{}/state.json", sub2);
+        let o = run_cli(cli, &["--lib".into(), "naive".into(), "--grd".into(), "--export".into(), tgt.clone(), "-q".into(), input.clone()]);
+        if o.code != Some(0) {
+            out.push(("cli:export-exit".into(), format!("export into a directory with other files exits with {:?}", o.code)));
+        }
+        let mut listing: Vec<String> = std::fs::read_dir(&sub2).map(|d| d.filter_map(|e| e.ok()).map(|e| e.file_name().to_string_lossy().to_string()).collect()).unwrap_or_default();
+        listing.sort();
+        let mut want: Vec<String> = names.iter().map(|s| s.to_string()).collect();
+        want.push("state.json".into());
+        want.sort();
+        if listing != want {
+            out.push(("cli:export-touched-other-files".into(), format!("after a fresh export to state.json the directory holds {:?}, expected {:?}", listing, want)));
+        }
+        for nm in names {
+            if std::fs::read(format!("{}/{}", sub2, nm)).ok() != Some(format!("PRECIOUS {}\n", nm).into_bytes()) {
+                out.push(("cli:export-overwrote".into(), format!("a fresh export to state.json changed the existing file {:?} next to it", nm)));
+            }
+        }
+        let _ = std::fs::remove_dir_all(&sub2);
     }
     // the target appears while the CLI is still reading its input: the input is a FIFO the harness feeds, so the
     // other process's file creation falls between the start of the CLI and its export step
